@@ -258,7 +258,20 @@ def run_impl(c):
                 eng = Engine(store=comp.generate_store({'initial_state': parts['state']}), display_info=False)
             eng.update(c['ticks'])
             trajs.append(strip(eng.emitter.get_data()))
-    return {'trajs': trajs}
+        # one Composite used for two engines: the first with an explicit initial state, the second without.  The
+        # composite's own state must not change, and the second engine must run as the one built from the parts
+        _OBJS.clear()
+        parts = realise_parts(c['parts'])
+        comp = Composite(copy.copy(parts))
+        before = copy.deepcopy(comp['state'])
+        over = {'v' + name: {'x': 50 + i} for i, name in enumerate(sorted(parts['processes']))}
+        eng = Engine(composite=comp, initial_state=over, display_info=False)
+        eng.update(1)
+        reuse = {'state_before': before, 'state_after': copy.deepcopy(comp['state'])}
+        eng = Engine(composite=comp, display_info=False)
+        eng.update(c['ticks'])
+        reuse['traj'] = strip(eng.emitter.get_data())
+    return {'trajs': trajs, 'reuse': reuse}
 
 
 def strip(d):
@@ -327,6 +340,13 @@ def oracle(c, ob, rng):
         a, b, s = ob['trajs']
         if a != b or a != s:
             msgs.append(('the three engine entry points give different trajectories', 'entry-points-differ'))
+        r = ob.get('reuse')
+        if r and r['state_before'] != r['state_after']:
+            msgs.append(('building an Engine from a Composite with an explicit initial_state changed the composite\'s '
+                         'own state: %r -> %r' % (r['state_before'], r['state_after']), 'composite-state-mutated'))
+        if r and r['traj'] != b:
+            msgs.append(('a second engine built from the same Composite does not run as the engine built from its '
+                         'parts', 'entry-points-differ'))
     return msgs[:2]
 
 
